@@ -7,6 +7,7 @@ type Property struct {
 	Explanation string
 	Decides     string
 	NotDecided  string
+	Technique   string
 }
 
 var trustedBase = []string{
@@ -23,4 +24,21 @@ var properties = map[string]*Property{}
 func defProperty(p *Property) {
 	properties[p.ID] = p
 	propertyOrder = append(propertyOrder, p.ID)
+}
+
+func init() {
+	defProperty(&Property{
+		ID:          "C16",
+		Rules:       []string{"KI-PROPAGATE", "KI-LOOKUP", "KI-FLOW"},
+		Explanation: "Static decision of the structural clauses of C16 on the current source of /repo: (KI-PROPAGATE) every pb.Biscuit envelope constructed anywhere in package biscuit sets RootKeyId - from the parent token's envelope in every function that has a *Biscuit receiver/parameter, from the creation option in the root constructor - and the option plumbing (rootKeyIDOption -> builderOptions -> WithRootKeyID -> biscuitOptions) stores and forwards the identifier; this is an induction over all derivation histories because it quantifies over all constructors. (KI-LOOKUP) every return of the WithRootPublicKeys projection is classified with its dominating branch decisions: the default key only under id==nil, a map value only under id!=nil with the presence flag, every other path ErrNoPublicKeyAvailable - so no fallback to another key exists on any path. (KI-FLOW) AuthorizerFor asks the source for the token's own id, wraps the error with %w, rejects an empty key and verifies with exactly the returned key.",
+		Decides:     "identifier propagation through every envelope constructor; exact key selection on every path of the lookup closure; use of the selected key for chain verification",
+		NotDecided:  "protobuf presence semantics of the optional uint32 field (trusted); runtime equality of the reported identifier values",
+	})
+	defProperty(&Property{
+		ID:          "C20",
+		Rules:       []string{"RG-ERR", "RG-PLUMB"},
+		Explanation: "Static decision of the structural clauses of C20: (RG-ERR) for every call of ed25519.GenerateKey in the repository the error result is compared with nil, the non-nil branch reaches only returns that carry that error with a nil token, and every use of the two key results lies on the err==nil side (edge dominance). By GenerateKey's contract a failing reader at any byte offset k yields exactly that error, so for every failure point the operation returns an error and no token, and never touches the nil keys (the panic of the pinned tree). (RG-PLUMB) the reader handed to GenerateKey is the caller's: the io.Reader parameter, or options.rng of a local options struct to which every element of the variadic options is applied; WithRNG stores the reader; Build and New forward it.",
+		Decides:     "error discipline at every key-generation site for all failure offsets; plumbing of the caller-supplied random source",
+		NotDecided:  "short reads that io.ReadFull turns into errors (stdlib); that the returned token verifies (covered by C01's SIG-PAIR/SIG-STORE rules)",
+	})
 }
